@@ -241,6 +241,15 @@ def parse_outcome(J, text, config):
     """the model's input: outcome of jsonrpclib.loads on the body"""
     if text == "":
         return ("empty",)
+    # malformedness is decided by the standard-library parser, not by the code under test: a text it rejects is a
+    # parse error whatever jsonrpclib.loads makes of it (jsonrpclib.loads is only asked what the class translator
+    # does with a text that does parse)
+    try:
+        json.loads(text)
+    except ValueError:
+        return ("error",)
+    except RecursionError:
+        return ("error",)
     try:
         return ("value", J.loads(text, config))
     except Exception:     # noqa
